@@ -280,6 +280,13 @@ pub fn swarm(prop: &str, seed: u64) -> (GenCfg, Suffix, Shape) {
 }
 
 /// Oracle ids a check for `prop` may raise (prefix match on "Cxx.").
+pub fn owns_any<'v>(prop: &str, v: &'v crate::world::Violation) -> Option<&'v str> {
+    if owns(prop, &v.oracle) {
+        return Some(&v.oracle);
+    }
+    v.aliases.iter().find(|a| owns(prop, a)).map(|s| s.as_str())
+}
+
 pub fn owns(prop: &str, oracle: &str) -> bool {
     if oracle.starts_with(&format!("{prop}.")) {
         return true;
